@@ -77,6 +77,39 @@ def expr_product():
     return out
 
 
+def concat_product(python_only=True, triples=0, rng=None):
+    """implicit concatenation of every ordered pair (and sampled triples) of string-like atoms: each STRING kind of Sigma (all prefix
+    letter-sets and cases) and each f-string opener of Sigma with four bodies (field only, literal+field, field+literal, literal only),
+    plus multi-line forms; on one line and across lines inside brackets.  Valid and invalid combinations alike; CPython / the oracle judges"""
+    from . import levelb
+    atoms = []
+    for t, s in levelb.sigma():
+        if python_only and not levelb.is_python_kind(t, s):
+            continue
+        if t == "STRING":
+            atoms.append(s)
+        elif t == "FSTRING_START":
+            q = s[-1]
+            atoms += [s + "{x}" + q, s + "a{x}" + q, s + "{x}b" + q, s + "ab" + q]
+    atoms += ["'''m\nn'''", "f'''m\n{x}n'''", "b'''m\nn'''", "'c\\\nd'"]
+    atoms = list(dict.fromkeys(atoms))
+    out = []
+    for a in atoms:
+        for b in atoms:
+            out.append(f"x = {a} {b}\n")
+            out.append(f"y = ({a}\n     {b})\n")
+    if triples and rng is not None:
+        for _ in range(triples):
+            a, b, c = rng.choice(atoms), rng.choice(atoms), rng.choice(atoms)
+            out.append(f"f({a} {b}\n  {c}, 1)\n")
+    return out
+
+
+def literal_product():
+    from .litseeds import literal_product as lp
+    return lp()
+
+
 def _read(path):
     with open(path, encoding="utf-8") as f:
         return f.read()
